@@ -69,14 +69,14 @@ PROPS = {
         claim="the four encoders (real bodies of EncodedPoint::from_affine and empty for G1/G2, compressed/uncompressed) return exactly the byte strings enc_* of "
               "specs/encode.vrs, written from the property statement: fixed lengths 96/48/192/96 (array types), big-endian 48-byte coordinates, c1 before c0, "
               "infinity = flag 0x40 and all other bits zero, compression flag 0x80, sort flag 0x20 set iff y > -y (canonical integer order; Fq2 lexicographic with c1 first); "
-              "every index and unwrap() is proved safe. Proved lemmas over enc_* and the decoding functions dec_* that the real decoders are proved equal to (unit codec, C04): "
+              "every index and unwrap() is proved safe; CurveAffine::into_compressed / into_uncompressed (trait defaults written out at G1Affine / G2Affine) return the same byte strings. Proved lemmas over enc_* and the decoding functions dec_* that the real decoders are proved equal to (unit codec, C04): "
               "dec(enc(P)) == Ok(P) for every affine point with reduced coordinates (identity -> canonical identity; compressed: P on the curve), and "
               "dec(b) == Ok(P) ==> enc(P) == b for every byte string of the right length (the encoding is the only accepted preimage; hence enc is injective).",
-        not_covered=["CurveAffine::into_compressed / into_uncompressed (trait defaults: from_affine(*self)) and the AsRef/AsMut<[u8]> accessors are not under contract (driven by the refutation search)",
+        not_covered=["the AsRef / AsMut<[u8]> accessors of the encoding newtypes (`&self.0`) are not under contract",
                      "projective inputs reach the encoders through into_affine (C01 scope)",
                      "get_point_from_x enters through the contract proved in unit recover (thorough tier), restated as ax_gpfx1/2 with a textual link check"],
-        assumptions=["D1w PrimeFieldRepr::write_be into a &mut [u8] cursor writes the 48 big-endian bytes at the front and advances (byteorder + io::Write for &mut [u8])",
-                     "Fq::into_repr returns the canonical integer (C08)", "Fq ordering is the canonical integer order (derive, C08); Fq2 ordering proved in unit order (C18)",
+        assumptions=["D1w PrimeFieldRepr::write_be into a &mut [u8] cursor writes the 48 big-endian bytes at the front and advances (proved on the compiled code: kani:limbs harness write_be_cursor, C08)",
+                     "Fq::into_repr returns the canonical integer (proved in unit mont, C08)", "Fq ordering is the canonical integer order (derive, C08); Fq2 ordering proved in unit order (C18)",
                      "A-FIELD: Fq and Fq2 are fields (a square has only the roots y, -y)", "A-ODD: neither curve has a point with y = 0 (numerically re-checked each run: -b is not a cube)", A['TOOLS']],
     ),
     'C06': dict(
@@ -133,8 +133,8 @@ PROPS = {
               "then for compressed input point recovery from x, then (checked) curve equation and subgroup membership, in this order of rejection; "
               "every index, slice read and unwrap() is proved safe (no panic). The subgroup / curve predicates are those of unit scalar (C07).",
         not_covered=["get_point_from_x (sqrt and choice of root) enters through its contract gpfx (C18 scope)",
-                     "the text of the coordinate name inside CoordinateDecodingError", "PrimeFieldRepr::read_be and Fq::from_repr enter through assumed contracts (D1, C08)"],
-        assumptions=["D1 read_be on a byte slice consumes 48 bytes big-endian", "Fq::from_repr: Ok iff value < q (C08 contract)", A['A3'], A['TOOLS'],
+                     "the text of the coordinate name inside CoordinateDecodingError", "PrimeFieldRepr::read_be and Fq::from_repr enter through contracts proved elsewhere: read_be over a byte slice by the kani:limbs harnesses read_be / read_be_short, from_repr in unit mont (C08)"],
+        assumptions=["D1 read_be on a byte slice consumes 48 bytes big-endian (proved: kani:limbs harness read_be, C08)", "Fq::from_repr: Ok iff value < q (proved in unit mont, C08)", A['A3'], A['TOOLS'],
                      "rewrites R5 (map_err + ? -> match/return; iter().all -> verified helper all_zero)"],
     ),
     'C19': dict(
@@ -151,7 +151,7 @@ PROPS = {
         not_covered=["std::io::Read / Write enter through the assumed contracts of read_exact / write_all (D2); a failing writer leaves the sink unspecified",
                      "the round trip is stated as lemmas over the two contracts (decode(encode(x)) == x), not as one executable composition"],
         assumptions=["D2 Read::read_exact either fills the buffer consuming exactly its length or fails; Write::write_all appends the whole buffer or fails; Vec::append; vec![0; n]",
-                     "D1 PrimeFieldRepr::write_be / read_be over streams: 8 bytes per limb, most significant first", "from_affine contracts are those proved in unit encode (C05); checked decoders those of unit codec (C04)", A['TOOLS'],
+                     "D1 PrimeFieldRepr::write_be / read_be over streams: 8 bytes per limb, most significant first (proved for slice / Vec streams by the kani:limbs harnesses; a generic stream goes through D2)", "from_affine contracts are those proved in unit encode (C05); checked decoders those of unit codec (C04)", A['TOOLS'],
                      "rewrites R5v (alloc::vec::from_elem -> contracted stub), R5c (as_mut().copy_from_slice -> verified helper copy_into), R5t (as_ref().to_vec() -> verified helper bytes_to_vec), "
                      "R15 (`&mut reader` with reader: &mut R -> explicit reborrow, std's impl Read for &mut R)"],
     ),
